@@ -87,6 +87,16 @@ let rec foreign_norm sch (m : nat) (v : val0) : val0 =
     VMsg (go md.m_fields slots, unk)
   | _ -> v
 
+(* the canonical unmarshal program of a message type, computed once per shard (a cache of a pure function) *)
+let canon_unmarshal_tbl : (string * string, ustmt list) Hashtbl.t = Hashtbl.create 64
+let canon_unmarshal_cached sid mid =
+  match Hashtbl.find_opt canon_unmarshal_tbl (sid, mid) with
+  | Some p -> p
+  | None ->
+    let p = canon_unmarshal (Ctx.schema sid) (nat_of_int (int_of_string mid)) in
+    Hashtbl.replace canon_unmarshal_tbl (sid, mid) p;
+    p
+
 let codec_eval (fn : string) (args : string list) : string =
   match fn, args with
   | "ENC", [ sid; mid; v ] ->
@@ -103,6 +113,10 @@ let codec_eval (fn : string) (args : string list) : string =
     let bs = bytes_of_hex b in
     let res = pulsar_unmarshal sch discard m init bs in
     incr dec_seen;
+    (* UnmarshalProg.unmarshal_prog_correct_stmt on this case (f = length bs, depth = recursion_limit): the canonical program of the
+       message type, children decoded by unmarshal_at one level down, computes what pulsar_unmarshal computes *)
+    if init = VNil || wt_msg sch m init then
+      law "C03.unmarshal_prog_correct" (run_unmarshal_top sch discard m (canon_unmarshal_cached sid mid) init bs = Some res);
     if init = VNil && !dec_seen mod 4 = 0 then
       law "C14.discard_strip" (pulsar_unmarshal sch true m VNil bs = out_map strip_unknown (pulsar_unmarshal sch false m VNil bs));
     (match res with Ok r when init = VNil || wt_msg sch m init -> law "C06.accepted_wt" (wt_msg sch m r) | _ -> ());
@@ -114,7 +128,11 @@ let codec_eval (fn : string) (args : string list) : string =
     let sch = Ctx.schema sid and m = nat_of_int (int_of_string mid) in
     let discard = String.contains flags 'd' in
     let bs = bytes_of_hex b in
-    (match unmarshal_at sch discard (nat_of_int (List.length bs + 1)) (z_of_hex (Printf.sprintf "%x" (int_of_string limit))) m VNil bs with
+    let depth = z_of_hex (Printf.sprintf "%x" (int_of_string limit)) in
+    let res = unmarshal_at sch discard (nat_of_int (List.length bs + 1)) depth m VNil bs in
+    law "C03.unmarshal_prog_correct"
+      (run_unmarshal sch discard (unmarshal_at sch discard (nat_of_int (List.length bs)) (Z.sub depth (Zpos XH))) depth m (canon_unmarshal_cached sid mid) VNil bs = Some res);
+    (match res with
      | Ok v -> "ok " ^ Sexp.string_of_val (foreign_norm sch m v)
      | Err -> "err" | Panic -> "panic" | OutOfFuel -> "outoffuel")
   | _ -> raise Not_found
